@@ -5,9 +5,9 @@
    on_task). *)
 From Coq Require Import List Arith ZArith Bool.
 Import ListNotations.
-From Acts.Gen Require Import GenState.
+From Acts.Gen Require Import GenState GenUpdate.
 From Acts.Model Require Import Engine Tree Oracles.
-From Acts.Proofs Require Import EngineLemmas Findings ReviveInv LogInv C02Ops FinalProofs.
+From Acts.Proofs Require Import EngineLemmas Findings ReviveInv LogInv C02Ops FinalProofs UpdateTable.
 
 (* full statement (false): forall w ops e t s, go w ops = Some e -> is_completed s = true -> msgs e t s <= 1 *)
 Theorem C08_once_refuted : exists w ops e t, go w ops = Some e /\ msgs e t SCompleted = 2.
@@ -18,6 +18,18 @@ Proof. exact message_twice_refutes. Qed.
 Theorem C08_partial_gate : forall e i, msg_allowed e i = true ->
   st e i <> SPending /\ st e i <> SRunning /\ t_silent (tk e i) = false.
 Proof. exact msg_gate. Qed.
+
+(* the gate and the order of the on_task handler, statically tied to the source: gen/GenUpdate.v is regenerated from
+   runtime.rs on every run (`on_task_gate_not`: the state predicates that block the message, next to `is_emit_disabled`;
+   `on_task_order`: store write, lifecycle hooks, gate, message built, message sent, by position in the handler).  The
+   model's gate is the gate of that table, read through the state predicates regenerated from state.rs, and the model's
+   `emit` is written in that order: the message is decided on, and reports, the state the hooks (a catch that takes the
+   error among them) left -- C08_message_reports_current_state.  A handler that builds the message before the hooks run,
+   or a gate with another predicate, changes the table and breaks this proof. *)
+Theorem C08_gate_and_order_match_source :
+  (forall e i, msg_allowed e i = gate_of_source (st e i) (t_silent (tk e i))) /\
+  on_task_order = model_on_task_order.
+Proof. split; [exact gate_match | exact order_match]. Qed.
 
 (* in every run (any node table, operations, schedule): a message reports the state its task has at the
    moment it is sent -- the state the task's last write gave it -- and that state is neither pending nor running *)
@@ -46,3 +58,4 @@ Print Assumptions C08_once_refuted.
 Print Assumptions C08_message_reports_current_state.
 Print Assumptions C08_messages_in_lifecycle_order.
 Print Assumptions C08_partial_gate.
+Print Assumptions C08_gate_and_order_match_source.
